@@ -37,7 +37,7 @@ ASSUMPTIONS = ['leaf masks come from glue itself (fresh objects): this check dec
                'not the meaning of each leaf kind (C08/C09 are input-space properties, not applicable to this technique)',
                'views are tuples of positive-step slices only (C04 covers the view domain)', 'sampling, not proof']
 PROBES = ['operand_reread_after_combine', 'multior_of_existing', 'edit_mode_and', 'edit_mode_or', 'edit_mode_xor', 'edit_mode_andnot',
-          'edit_mode_new', 'two_edit_subsets', 'same_state_object_applied_again', 'incompatible_expected', 'view_compare', 'nan_inf_data', 'depth_ge_3', 'copy_compared']
+          'edit_mode_new', 'two_edit_subsets', 'same_state_object_applied_again', 'incompatible_expected', 'view_compare', 'nan_inf_data', 'depth_ge_3', 'copy_compared', 'list_and_tuple_views']
 
 KINDS = ['ineq', 'range', 'mrange', 'roi', 'mask', 'slice', 'elem', 'catroi', 'cat', 'empty', 'ineq2', 'roind', 'roi3d']
 WEIGHTS = {'new_group': 4, 'combine': 5, 'invert': 2, 'multior': 2, 'copy': 1.5, 'apply': 5, 'set_edit': 1.5, 'set_state': 1,
@@ -365,6 +365,57 @@ def execute(case, res):
     compare(w, res)
 
 
+class NoView(Exception):
+    pass
+
+
+def fold_view(w, t, d, view):
+    """Expected mask of recipe tree t on dataset d under a view: the same elementwise operations over what fresh (cold) leaf
+    states give under that very view.  What a leaf kind makes of an unusual view (a list) is not judged here - it cancels."""
+    k = t[0]
+    if k in ('and', 'or', 'xor'):
+        a, b = fold_view(w, t[1], d, view), fold_view(w, t[2], d, view)
+        return {'and': np.logical_and, 'or': np.logical_or, 'xor': np.logical_xor}[k](a, b)
+    if k == 'not':
+        return np.logical_not(fold_view(w, t[1], d, view))
+    if k == 'multior':
+        r = None
+        for x in t[1]:
+            m = fold_view(w, x, d, view)
+            r = m if r is None else np.logical_or(r, m)
+        if r is None:
+            raise NoView()
+        return r
+    st, m = W.mask_of_view(d, w.build_leaf(t), view)
+    if st != 'ok':
+        raise NoView()
+    return m
+
+
+def compare_list_and_tuple_views(w, res, d, g, gi, t):
+    """The same selection asked for under a list of integers and under the tuple of the same integers (rows vs one element for numpy;
+    glue's leaf kinds differ in what they make of a list): neither answer may depend on the other having been asked before."""
+    if d.ndim < 2 or depth(t) == 0:
+        return
+    ij = [(gi + 1) % d.shape[0], (gi + 2) % d.shape[1]]
+    views = [list(ij), tuple(ij)]
+    if gi % 2:
+        views.reverse()
+    for view in views:
+        try:
+            exp = fold_view(w, t, d, view)
+        except (NoView, ValueError, TypeError, IndexError):
+            continue
+        st, got = W.mask_of_view(d, g.subset_state, view)
+        if st != 'ok':
+            continue        # (whether a composite accepts a view its parts accept one by one is C04's subject, for array views)
+        res.probe('list_and_tuple_views')
+        res.nchecks += 1
+        if np.shape(got) != np.shape(exp) or not np.array_equal(got, exp):
+            raise Violation('C01/mask-under-view-differs/%s/list-vs-tuple' % t[0], 'dataset %s group %d view %r: glue %s %s, parts give %s' % (
+                d.label, gi, view, st, None if got is None else np.asarray(got).astype(int).tolist(), np.asarray(exp).astype(int).tolist()))
+
+
 def compare(w, res):
     dc = w.dc
     for d in dc:
@@ -409,3 +460,4 @@ def compare(w, res):
                 res.probe('view_compare')
                 if sv != 'ok' or not np.array_equal(np.asarray(gv, dtype=bool), exp[view]):
                     raise Violation('C01/mask-under-view-differs/%s' % top, 'dataset %s group %d view %s' % (d.label, gi, v))
+            compare_list_and_tuple_views(w, res, d, g, gi, t)
